@@ -47,6 +47,8 @@ POLICIES = {
     "ec-refeds+restr": {"default": {"entity_categories": ["refeds"], "attribute_restrictions": {"mail": [r".*@example\.org$"], "givenName": None, "sn": None}}},
     "ec-pvp2": {"default": {"entity_categories": ["at_egov_pvp2"]}},
     "no-fail-on-missing": {"default": {"attribute_restrictions": None, "fail_on_missing_requested": False}},
+    # no release policy configured at all (neither for the idp nor for the aa service): what the SP declares still applies
+    "none-configured": {"default": {}},
     "names-only-no-fail": {"default": {"attribute_restrictions": {"givenName": None}, "fail_on_missing_requested": False}},
     # an entry of its own for each SP of the multi-SP scenarios: privileged and restricted providers side by side on one Server
     "per-sp-mixed": {"default": {"attribute_restrictions": {"givenName": None}},
@@ -73,6 +75,11 @@ DECLS = {
     # the SP's metadata has a second SAML 2.0 SPSSODescriptor that declares no attribute consuming service at all
     "req-givenName|second-descriptor-without-declaration": [("givenName", True, [])],
     "req-affiliation=staff|second-descriptor-without-declaration": [("eduPersonAffiliation", True, ["staff"])],
+    # ... or a second AttributeConsumingService that requests nothing
+    "req-mail|second-service-without-requested-attributes": [("mail", True, [])],
+    # one attribute declared twice (required by one RequestedAttribute, optional by another)
+    "req-mail+opt-mail": [("mail", True, []), ("mail", False, [])],
+    "req-affiliation=staff+opt-affiliation=member": [("eduPersonAffiliation", True, ["staff"]), ("eduPersonAffiliation", False, ["member"])],
 }
 CATS = {
     "none": [],
@@ -309,6 +316,21 @@ def run_sequence(case, ctx):
             "counters": counters, "evals": max(1, counters["sequence_steps"]), "sigs": [["threads" if case.get("threads") else "sequence", case["policy"], case["k"]]]}
 
 
+def _declared(decl):
+    """lower-case name -> set of declared values (empty set: any value).  An attribute declared more than once is declared with the union of
+    the values, and with any value as soon as one of the declarations names none."""
+    if decl is None:
+        return None
+    out = {}
+    for n, _req, vals in decl:
+        ln = n.lower()
+        if ln in out and (not out[ln] or not vals):
+            out[ln] = set()
+        else:
+            out.setdefault(ln, set()).update(vals)
+    return out
+
+
 def _idp(ctx, pol, decl, cat):
     to, fro = _to_map()
 
@@ -318,6 +340,8 @@ def _idp(ctx, pol, decl, cat):
             requested = [(to[n], n, req, vals) for n, req, vals in DECLS[decl]]
         ent = {"eid": fed.SP_EID, "entity_categories": CATS[cat], "entity_category_support": CAT_SUPPORT.get(cat),
                "sp": {"keys": [("signing", 1), ("encryption", 2)], "acs": [(B_POST, fed.ACS_POST, 1, True)], "requested": requested}}
+        if "second-service" in decl:
+            ent["sp"]["empty_service"] = True
         if "second-descriptor" in decl:
             ent["sp_second"] = {"keys": [("signing", 1)], "acs": [(B_POST, fed.ACS_POST + "/second", 5, None)]}
         spmd = mdgen.entity(ent)
@@ -327,6 +351,9 @@ def _idp(ctx, pol, decl, cat):
         idc = fed.idp_conf(policy=policy)
         idc["service"]["aa"] = {"endpoints": {"attribute_service": [("https://idp.example.org/aa", "urn:oasis:names:tc:SAML:2.0:bindings:SOAP")]},
                                 "policy": policy}
+        if pol == "none-configured":
+            del idc["service"]["aa"]["policy"]
+            del idc["service"]["idp"]["policy"]
         return fed.make_idp(idc, [spmd])
     return ctx.fedcache.get("idp", [pol, decl, cat], build)
 
@@ -418,18 +445,20 @@ def judge(case, ident, xml, eid, prefix=""):
     viol = []
     status, released, n_enc = read_response(xml)
     success = status == "urn:oasis:names:tc:SAML:2.0:status:Success"
-    lident = {}
+    lident, held = {}, {}
     for k, v in ident.items():
         if isinstance(v, (str, bytes, int, bool)):
             v = [v]
         # (text form as the IdP writes it: booleans in lower case, octets decoded)
-        lident.setdefault(k.lower(), set()).update(
-            x if isinstance(x, str) else (str(x).lower() if isinstance(x, bool) else (x.decode("utf-8") if isinstance(x, bytes) else str(x))) for x in v)
+        texts = [x if isinstance(x, str) else (str(x).lower() if isinstance(x, bool) else (x.decode("utf-8") if isinstance(x, bytes) else str(x))) for x in v]
+        lident.setdefault(k.lower(), set()).update(texts)
+        for t in texts:
+            held[(k.lower(), t)] = held.get((k.lower(), t), 0) + 1
     decl = DECLS[case["decl"]]
     required_names = set(n.lower() for n, req, vals in (decl or []) if req)
     ent = entitled(case["policy"], case["cat"], required_names, eid)
     restr = restrictions(case["policy"], eid)
-    declared = {n.lower(): set(vals) for n, req, vals in (decl or [])} if decl is not None else None
+    declared = _declared(decl)
     rules = []
     if ent is not None:
         rules.append("entity-categories")
@@ -442,6 +471,15 @@ def judge(case, ident, xml, eid, prefix=""):
     if not success and released:
         viol.append({"key": "C07/error-response-carries-attributes", "what": desc + " released %r" % [r[0] for r in released]})
     n_rel = 0
+    sent = {}
+    for name, uri, vals in released:
+        for v in vals:
+            sent[((name or "").lower(), v)] = sent.get(((name or "").lower(), v), 0) + 1
+    for (ln_, v_), n_ in sorted(sent.items()):
+        if 0 < held.get((ln_, v_), 0) < n_:
+            viol.append({"key": "C07/value-released-more-often-than-held", "what": desc + ": %s=%r is in the identity %d time(s) and in the assertion %d times" % (
+                ln_, v_, held[(ln_, v_)], n_), "detail": {"released": [(r[0], r[2]) for r in released], "identity": ident}})
+            break
     for name, uri, vals in released:
         ln = (name or "").lower()
         for v in vals:
